@@ -379,7 +379,7 @@ def body(ck: common.Check):
         cases.append(("directed", gen_case(rng, mode=mode, stochastic=False, adc=True)))
     for kind in ("w1", "shift", "both"):
         cases.append(("directed", gen_case(rng, mode="custom", stochastic=False, custom_kind=kind)))
-    for _ in range(10 if quick else 150):
+    for _ in range(7 if quick else 150):
         cases.append(("random", gen_case(rng)))
     answers = LeanDriver("C07").batch([lean_request(c) for _, c in cases])
     second = []  # (case, observed completion order) for the assembly model
@@ -449,7 +449,7 @@ def body(ck: common.Check):
     # seeds: island i of the result must still be the island built from seed i
     for i in range(2 if quick else 8):
         check_island_order(ck, rng)
-    ncal = 2 if quick else 12
+    ncal = 1 if quick else 12
     for i in range(ncal):
         cc = gen_cal_case(rng)
         base = None
